@@ -7,7 +7,7 @@
 //! case and compares the digests line by line.
 
 use crate::c_animator::*;
-use crate::desc::*;
+use mv_core::desc::*;
 use mina::prelude::*;
 use mv_engine::{Obs, Run, Tier};
 use mv_model::{step32, Rep, Timing};
